@@ -13,6 +13,7 @@ BASE_RULES = {
     'P(x)': '"(" >> x << ")"',
     'L': '/[ab]/',
     'D': '/[01]/',
+    'class K': '{ first: L; rest: W* }',
 }
 ALT = {     # alternative definitions used by derived grammars
     'W': ['"<" >> L << ">"', 'D | L', '[L, D]', '("!" >> super.W) | D', 'P(D) | L', 'P(x=L) | P(D)'],
@@ -52,7 +53,10 @@ class Level:
             inherited |= set(p.rules)
             p = p.parent
         for n, body in self.rules.items():
-            lines.append(('override ' if n in inherited else '') + f'{n} = {body}')
+            if n.startswith('class '):
+                lines.append(f'{n} {body}')
+            else:
+                lines.append(('override ' if n in inherited else '') + f'{n} = {body}')
         if self.ignore:
             if self.ignore_first:
                 lines.insert(0, self.ignore)
@@ -97,7 +101,7 @@ def flatten(level):
         define(n, idx, chain[idx].rules[n])
     igns = [lv.ignore for lv in chain if lv.ignore]
     order = ['start'] + [n for n in rules if n != 'start']
-    desc = '\n'.join(f'{n} = {rules[n]}' for n in order) + '\n' + '\n'.join(igns) + '\n'
+    desc = '\n'.join((f'{n} {rules[n]}' if n.startswith('class ') else f'{n} = {rules[n]}') for n in order) + '\n' + '\n'.join(igns) + '\n'
     return desc
 
 
@@ -217,15 +221,15 @@ def run(R):
             lv, g = levels[-1], mods[-1]
             flat = Grammar(flatten(lv))
             own = set(lv.rules)
-            for rname in ('W', 'L', 'D'):
+            for rname in ('W', 'L', 'D', 'K'):
                 if rname in own:
                     continue
                 for t in TX[:60]:
                     got, want = safe_outcome(g, t, rname), safe_outcome(flat, t, rname)
                     R.count('inherited-entry', (uid, rname, t), nontrivial=True)
                     if strip_names(got) != strip_names(want):
-                        R.counterexample('inherited-entry', 'inherited-entry-point-uses-parent-context',
-                                         dict(case, rule=rname, text=t), want, got)
+                        R.counterexample('inherited-entry', 'inherited-class-entry-point-uses-parent-context' if rname == 'K' else
+                                         'inherited-entry-point-uses-parent-context', dict(case, rule=rname, text=t), want, got)
                         break
     R.samples.append({'chain': case['chain'], 'flattened': flatten(levels[-1])})
     R.assumptions += ['importlib / sys.modules plumbing and the re-parsing of the parent\'s __doc__ are exercised, not modelled',
